@@ -78,6 +78,16 @@ def pat(rng, depth=1, meta=0.4, notation=0.3, syms=SYMS):
     return repo.P().Symbol(rng.choice(syms))
 
 
+def admissible_inst(conc, delta) -> bool:
+    """would the documented machine accept instantiating `conc` with `delta` (constraints respected, no capture)?  The toolkit cannot
+    judge this itself (known findings under C04/C07), so generated modules stay on the admissible side."""
+    try:
+        tb.inst(tb.of_repo(conc), {k: tb.of_repo(v) for k, v in delta.items()}, 'strict', check='doc')
+        return True
+    except tb.Undefined:
+        return False
+
+
 def random_module(rng: random.Random, max_claims=6, with_imports=True, syms=SYMS, pool_rounds=None, static_instantiate=0.04) -> Built:
     PR = repo.mod('proof')
     P = repo.P()
@@ -215,8 +225,9 @@ def random_module(rng: random.Random, max_claims=6, with_imports=True, syms=SYMS
                     if rng.random() < 0.15 and ids:
                         delta = {ids[0]: P.MetaVar(ids[0])}     # identity instantiation
                         tags.add('identity_instantiation')
-                    add(mod.dynamic_inst(th, delta), f'dynamic_inst({d})')
-                    tags.add('dynamic_inst')
+                    if admissible_inst(th.conc, delta):
+                        add(mod.dynamic_inst(th, delta), f'dynamic_inst({d})')
+                        tags.add('dynamic_inst')
             elif r < 0.45 + static_instantiate:
                 # ProofExp.instantiate (the non-dynamic spelling), incl. empty and identity maps
                 ids = sorted(th.conc.metavars())
@@ -231,8 +242,9 @@ def random_module(rng: random.Random, max_claims=6, with_imports=True, syms=SYMS
                     keys = [i for i in ids if rng.random() < 0.8] or [ids[0]]
                     rng.shuffle(keys)
                     delta = {i: p_() for i in keys}
-                add(mod.instantiate(th, delta), f'instantiate({d}, keys={sorted(delta)})')
-                tags.add('static_instantiate')
+                if admissible_inst(th.conc, delta):
+                    add(mod.instantiate(th, delta), f'instantiate({d}, keys={sorted(delta)})')
+                    tags.add('static_instantiate')
             elif r < 0.6:
                 lr = P.Implies.unwrap(th.conc)
                 if lr:
